@@ -68,8 +68,116 @@ fn body_for(rng: &mut Rng, enc: &'static Encoding) -> Vec<u8> {
     }
 }
 
+/// Op `stage`: the staging logic of `TextReader::read` (caller buffers of fewer than 8 bytes are served from
+/// an 8-byte staging buffer) against the Lean model `TextStage`. The decoder behind it is third-party: its
+/// answers are RECORDED from a second, identical `DecodeReaderBytes` that the harness drives with the sizes
+/// the staging logic is specified to ask for, and given to the model as a table.
+fn stage_cases(rng: &mut Rng, n: usize, sink: &mut Sink) {
+    use encoding_rs_io::DecodeReaderBytesBuilder;
+    let labels = ["utf-8", "shift_jis", "windows-1252", "utf-16le", "iso-2022-jp", "gbk"];
+    for i in 0..n {
+        let enc = Encoding::for_label(rng.pick(&labels).as_bytes()).unwrap();
+        let text = match rng.below(4) {
+            0 => "plain ascii text, long enough to need several refills of the staging buffer".to_string(),
+            1 => "héllo wörld — 日本語テキスト ΩЖ 😀 end".to_string(),
+            2 => String::new(),
+            _ => "aé日".repeat(rng.range(1, 40) as usize),
+        };
+        let (b, _, _) = enc.encode(&text);
+        let mut body = b.into_owned();
+        if rng.chance(1, 3) && !body.is_empty() {
+            body.pop(); // ends inside a sequence
+        }
+        if rng.chance(1, 4) {
+            body.extend_from_slice(&[0xff, 0xfe, 0x80]);
+        }
+        // caller read sizes: mostly tiny, some large, some empty; enough of them to drain the text
+        let mut ns: Vec<usize> = vec![];
+        let budget = body.len() * 3 + 24;
+        let mut room = 0usize;
+        while room < budget && ns.len() < 400 {
+            let k = match rng.below(10) {
+                0 => 0,
+                1..=4 => rng.range(1, 3) as usize,
+                5 => rng.range(4, 7) as usize,
+                6 => 8,
+                7 => rng.range(9, 12) as usize,
+                _ => *rng.pick(&[1usize, 2, 3, 16, 100, 8192]),
+            };
+            room += k.max(1);
+            ns.push(k);
+        }
+        for _ in 0..(i % 4) {
+            ns.push(*rng.pick(&[1usize, 3, 4, 0]));
+        }
+        // the real TextReader over the schedule
+        let mut tr = attohttpc::TextReader::new(&body[..], enc);
+        let mut evs: Vec<String> = vec![];
+        let mut streamed: Vec<u8> = vec![];
+        let mut overlong = None;
+        for (j, &k) in ns.iter().enumerate() {
+            let mut buf = vec![0u8; k];
+            match tr.read(&mut buf) {
+                Ok(m) => {
+                    if m > k {
+                        overlong = Some(j);
+                    }
+                    streamed.extend_from_slice(&buf[..m.min(k)]);
+                    evs.push(format!("o{}", hex(&buf[..m.min(k)])));
+                }
+                Err(_) => evs.push("e:other".into()),
+            }
+        }
+        // the decoder's answers to the sizes the staging logic asks for (specification of the fix: the size
+        // of the caller's buffer when it has at least 8 bytes of room or none at all, 8 otherwise; nothing while
+        // staged bytes are pending)
+        let mut dec = DecodeReaderBytesBuilder::new().encoding(Some(enc)).build(&body[..]);
+        let mut answers: Vec<String> = vec![];
+        let mut pending = 0usize;
+        for &k in &ns {
+            if pending > 0 {
+                pending -= k.min(pending);
+                continue;
+            }
+            let ask = if k >= 8 || k == 0 { k } else { 8 };
+            let mut buf = vec![0u8; ask];
+            match dec.read(&mut buf) {
+                Ok(m) => {
+                    answers.push(format!("o{}", hex(&buf[..m])));
+                    if k > 0 && k < 8 {
+                        pending = m - k.min(m);
+                    }
+                }
+                Err(_) => answers.push("e".into()),
+            }
+        }
+        let (whole, _) = enc.decode_without_bom_handling(&body);
+        let whole = whole.into_owned();
+        let sans_bom = whole.strip_prefix('\u{feff}').map(|x| x.to_string());
+        // an end-of-stream signal (Ok(0) into a non-empty buffer) only once the whole text was handed out;
+        // before that, a prefix of it
+        let ended = ns.iter().zip(evs.iter()).any(|(k, e)| *k > 0 && e == "o");
+        let is_whole = |s: &[u8]| s == whole.as_bytes() || Some(s) == sans_bom.as_ref().map(|x| x.as_bytes());
+        let is_prefix = |s: &[u8]| whole.as_bytes().starts_with(s) || sans_bom.as_ref().map_or(false, |x| x.as_bytes().starts_with(s));
+        let o = if let Some(j) = overlong {
+            Err(("stage-overlong-read".to_string(), format!("read #{} returned more than the buffer holds", j)))
+        } else if (ended && !is_whole(&streamed)) || !is_prefix(&streamed) {
+            Err((format!("decode-differs-text_reader-{}", enc.name()), format!("schedule {:?}…: streamed {} bytes (end signalled: {}), whole text {} bytes", &ns[..ns.len().min(12)], streamed.len(), ended, whole.len())))
+        } else {
+            Ok(())
+        };
+        sink.push(Case {
+            tags: vec!["kind=stage".into(), format!("charset={}", enc.name()), format!("tiny-reads={}", ns.iter().filter(|k| **k > 0 && **k < 8).count() > 0)],
+            op: format!("stage {} {}", if ns.is_empty() { "-".to_string() } else { ns.iter().map(|k| k.to_string()).collect::<Vec<_>>().join(",") }, if answers.is_empty() { "-".to_string() } else { answers.join(",") }),
+            impl_line: format!("ev={}", evs.join(",")),
+            oracle: o,
+        });
+    }
+}
+
 pub fn generate(seed: u64, tier: &str, sink: &mut Sink) {
     let mut rng = Rng::new(seed ^ 0xC18);
+    stage_cases(&mut Rng::new(seed ^ 0xC185), if tier == "thorough" { 6000 } else { 600 }, sink);
     let thorough = tier == "thorough";
     let n = if thorough { 40_000 } else { 3000 };
     let defaults: [Option<&'static Encoding>; 3] = [None, Some(encoding_rs::UTF_8), Some(encoding_rs::SHIFT_JIS)];
@@ -81,7 +189,7 @@ pub fn generate(seed: u64, tier: &str, sink: &mut Sink) {
         let (b, _, _) = enc.encode("a&#233;日本語テキスト日");
         let full = b.into_owned();
         for cut in [1usize, 2, 3] {
-            for rb in [1usize, 2, 3] {
+            for rb in [1usize, 2, 3, 4, 5, 7] {
                 if full.len() > cut {
                     forced.push((label, full[..full.len() - cut].to_vec(), rb));
                 }
@@ -218,7 +326,7 @@ pub fn generate(seed: u64, tier: &str, sink: &mut Sink) {
                     if t != whole && sans_bom(&whole).as_deref() != Some(t.as_str()) {
                         let tail_only = whole.starts_with(t.as_str()) && whole[t.len()..].chars().all(|c| c == '\u{fffd}');
                         let kind = if tail_only { "drops-incomplete-tail" } else { "differs" };
-                        if tail_only && what == "text_reader" && rbuf < 4 {
+                        if tail_only && what == "text_reader" && rbuf < 8 {
                             // encoding_rs_io loses the rest of the final replacement character when the
                             // caller's buffer is smaller than 4 bytes (TinyTranscoder not drained at EOF)
                             return Err(("text_reader-small-buffer-loses-final-replacement".to_string(), format!("read buffer of {} bytes, charset {}: {} vs {} chars; body (first 64 of {} bytes) {}", rbuf, expect.name(), t.chars().count(), whole.chars().count(), body.len(), hex(&body[..body.len().min(64)]))));
@@ -250,7 +358,7 @@ pub fn generate(seed: u64, tier: &str, sink: &mut Sink) {
             table
         );
         sink.push(Case {
-            tags: vec![format!("header={}", form), format!("default={}", dflt.map(|d| d.name()).unwrap_or("none")), format!("call={}", what), format!("seg={}", ["one", "1-byte", "random"][seg_mode as usize]), format!("charset={}", expect.name()), format!("bom={}", has_bom), format!("tiny-read-buffer={}", what == "text_reader" && rbuf > 0 && rbuf < 4)],
+            tags: vec![format!("header={}", form), format!("default={}", dflt.map(|d| d.name()).unwrap_or("none")), format!("call={}", what), format!("seg={}", ["one", "1-byte", "random"][seg_mode as usize]), format!("charset={}", expect.name()), format!("bom={}", has_bom), format!("tiny-read-buffer={}", what == "text_reader" && rbuf > 0 && rbuf < 8)],
             op,
             impl_line: format!("cs={}", hex(impl_cs.as_bytes())),
             oracle: o.map(|_| ()),
